@@ -58,12 +58,9 @@ class Recorder:
 
 def bare_parser(ctx=0):
     from engine.standins import NullLogger
-    p = object.__new__(P.Parser)
-    p.included_files, p.debug = [], False
-    p.current_file = pathlib.Path(["/d/a.yaml", "/other/place/b.yaml", "/d/sub/c.yaml"][ctx % 3])
+    from engine import realinit
+    p = realinit.parser(P, validate_alignment=bool(ctx % 2), auto_pad=True, import_coredefs=bool((ctx // 2) % 2))
     p.root_path = pathlib.Path(["/d", "/other", "/"][ctx % 3])
-    p.validate_alignment, p.auto_pad, p.import_coredefs = bool(ctx % 2), True, bool((ctx // 2) % 2)
-    p.logger = NullLogger()
     p.clear()
     p.current_file = pathlib.Path(["/d/a.yaml", "/other/place/b.yaml", "/d/sub/c.yaml"][ctx % 3])
     if ctx >= 1:   # unrelated definitions already registered
@@ -401,18 +398,17 @@ def printers(h):
     want = h[:8]
     if which == "c":
         from pyrtma.compilers.c99 import CDefCompiler
-        c = object.__new__(CDefCompiler).generate_hash_id(m)
+        c = CDefCompiler(bare_parser(), "defs").generate_hash_id(m)
         if c != "#define HASH_" + "NAME".ljust(48) + " 0x" + want + "\n":
             return False, "C header prints another hash value"
     elif which == "js":
         from pyrtma.compilers.javascript import JSDefCompiler
-        j = object.__new__(JSDefCompiler).generate_hash_id(m)
+        j = JSDefCompiler(bare_parser()).generate_hash_id(m)
         if j != 'RTMA.HASH.NAME = "' + want + '";\n':
             return False, "JavaScript prints another hash value"
     elif which == "matlab":
         from pyrtma.compilers.matlab import MatlabDefCompiler
-        mc = object.__new__(MatlabDefCompiler)
-        mc.struct_name = "RTMA"
+        mc = MatlabDefCompiler(bare_parser())
         ml = mc.generate_hash_id(m)
         if ml != 'RTMA.hash.NAME = "' + want + '";\n':
             return False, "MATLAB prints another hash value"
@@ -420,8 +416,7 @@ def printers(h):
         from pyrtma.compilers.python import PyDefCompiler
         import pyrtma.compilers.python as PYC
         PYC.dedent = lambda t: t   # textwrap.dedent only strips common leading blanks (stdlib regex on the whole text): cut
-        pc = object.__new__(PyDefCompiler)
-        pc.parser = bare_parser()
+        pc = PyDefCompiler(bare_parser())
         if which == "py_msg":
             py = pc.generate_msg_def(m)
         else:
